@@ -60,6 +60,23 @@ impl<K: PartialEq + Copy, V> SmallMap<K, V> {
             None => Entry::Vacant(Vacant { map: self, k }),
         }
     }
+    pub fn contains_key(&self, k: &K) -> bool {
+        self.pos(k).is_some()
+    }
+    pub fn len(&self) -> usize {
+        let mut n = 0;
+        let mut i = 0;
+        while i < MAP_CAP {
+            if self.items[i].is_some() {
+                n += 1;
+            }
+            i += 1;
+        }
+        n
+    }
+    pub fn is_empty(&self) -> bool {
+        self.len() == 0
+    }
     pub fn insert(&mut self, k: K, v: V) -> Option<V> {
         match self.entry(k) {
             Entry::Occupied(mut o) => Some(std::mem::replace(o.get_mut(), v)),
@@ -638,7 +655,11 @@ unsafe fn arbitrary_state_shape(max_a: usize, max_b: usize, with_b: bool) -> St 
     kani::assume(ida[0] < ida[1] && ida[1] < next && idb < next && idb != ida[0] && idb != ida[1] && ida[0] >= 1 && idb >= 1);
     kani::assume(next < u128::MAX); // ledger A9
     let mut sd = SignalData { signals: HashMap::new(), next_id: next };
-    let mut sa = Slot { prev: Prev { signal: a, info: std::mem::zeroed() }, actions: BTreeMap::new() };
+    // signal A had a real (siginfo) handler before the library took it over; B had none
+    let mut old: libc::sigaction = std::mem::zeroed();
+    old.sa_sigaction = prev_three as usize;
+    old.sa_flags = libc::SA_SIGINFO;
+    let mut sa = Slot { prev: Prev { signal: a, info: old }, actions: BTreeMap::new() };
     if na >= 1 {
         sa.actions.insert(ActionId(ida[0]), Arc::from(act(1)));
     }
@@ -902,7 +923,8 @@ fn c02_op_handler() {
         let sig: c_int = kani::any();
         deliver(sig);
         if sig == st.a {
-            assert!(log_is(if st.na == 0 { &[] } else if st.na == 1 { &[1] } else { &[1, 2] }), "C02.ORDER: a delivery runs exactly the actions of its signal in the one snapshot it read, each once, in id (= registration) order");
+            assert!(LOGN >= 1 && LOG[0] == PREV3 && PREV_SIG == sig, "C04.FIRST: the handler that was installed before the library took the signal over runs first, exactly once - also when no action is left");
+            assert!(log_is(if st.na == 0 { &[PREV3] } else if st.na == 1 { &[PREV3, 1] } else { &[PREV3, 1, 2] }), "C02.ORDER: a delivery runs exactly the actions of its signal in the one snapshot it read, each once, in id (= registration) order");
         } else if sig == st.b {
             assert!(log_is(if st.nb == 0 { &[] } else { &[3] }), "C02.ONLY-SIG: actions registered for other signals are never run");
         } else if fb_some && fb_sig == sig {
